@@ -58,6 +58,9 @@ def _read(path):
         return f.read()
 
 
+_INCLUDED = set()
+
+
 def parse_unit(path, _seen=None):
     """Returns list of segments: ('raw', text, origin, first_line) | ('extract', spec dict) | ('lemma_props', [ids])."""
     segs = []
@@ -80,7 +83,9 @@ def parse_unit(path, _seen=None):
             if d.startswith("include "):
                 flush()
                 inc = os.path.join(ROOT, d[len("include "):].strip())
-                segs.extend(parse_unit(inc))
+                if inc not in _INCLUDED:          # a file is included once per unit (libraries may name the same shims)
+                    _INCLUDED.add(inc)
+                    segs.extend(parse_unit(inc))
                 i += 1
                 raw_start = i + 1
                 continue
@@ -349,13 +354,53 @@ def run_extractor(items):
     return json.loads(p.stdout)["items"]
 
 
+BU_RE = re.compile(r"^broadcast use\s+(\{[^}]*\}|[A-Za-z_0-9:]+)\s*;\s*$")
+
+
+def _merge_broadcast_use(segs):
+    """Verus allows one module-level `broadcast use` per module; units assembled from several library units may carry
+    one each.  All root-level (column 0) statements are merged into the first one."""
+    items = []
+    first = None
+    out = []
+    for k, sg in enumerate(segs):
+        if sg[0] != "raw":
+            out.append(sg)
+            continue
+        lines = sg[1].split("\n")
+        keep = []
+        for ln in lines:
+            m = BU_RE.match(ln)
+            if m:
+                body = m.group(1).strip()
+                names = [x.strip() for x in body.strip("{}").split(",") if x.strip()]
+                for n in names:
+                    if n not in items:
+                        items.append(n)
+                if first is None:
+                    first = (len(out), len(keep))
+                    keep.append("@@BROADCAST_USE@@")
+                else:
+                    keep.append("")
+            else:
+                keep.append(ln)
+        out.append((sg[0], "\n".join(keep), sg[2], sg[3]))
+    if first is not None:
+        k = first[0]
+        sg = out[k]
+        out[k] = (sg[0], sg[1].replace("@@BROADCAST_USE@@", "broadcast use {" + ", ".join(items) + "};"), sg[2], sg[3])
+    return out
+
+
 FN_RE = re.compile(r"^\s*(?:pub(?:\([a-z]+\))?\s+)?(?:open\s+|closed\s+|broadcast\s+)*(proof|spec|exec)?\s*fn\s+([A-Za-z_0-9]+)")
 
 
 def assemble(unit_name, out_path=None):
     """Builds build/<unit>.rs. Returns meta dict."""
     vx = os.path.join(ROOT, "contracts", unit_name + ".vx")
+    _INCLUDED.clear()
     segs = parse_unit(vx)
+    segs = _merge_broadcast_use(segs)
     items = []
     for k, s in enumerate(segs):
         if s[0] == "extract":
